@@ -358,14 +358,23 @@ messageTypeSwitching:
 	case *objects.BadServerSalt:
 		m.serverSalt = message.NewSalt
 		err := m.SaveSession()
-		check(err)
+		if err != nil {
+			m.warnError(errors.Wrap(err, "saving session"))
+		}
 
+		// server rejects exactly one message, its id is in notification. Other requests sent with old salt
+		// will get their own notifications, and accepted ones must not be sent twice. Request will be
+		// registered again under new id by waiter, so old registration must be forgotten.
 		m.mutex.Lock()
-		for _, k := range m.responseChannels.Keys() {
-			v, _ := m.responseChannels.Get(k)
-			v <- &errorSessionConfigsChanged{}
+		v, ok := m.responseChannels.Get(int(message.BadMsgID))
+		if ok {
+			m.responseChannels.Delete(int(message.BadMsgID))
+			m.expectedTypes.Delete(int(message.BadMsgID))
 		}
 		m.mutex.Unlock()
+		if ok {
+			v <- &errorSessionConfigsChanged{}
+		}
 
 	case *objects.NewSessionCreated:
 		m.serverSalt = message.ServerSalt
